@@ -394,3 +394,84 @@ Print Assumptions stats_agg.
 Print Assumptions stats_equiv.
 Print Assumptions stats_merge.
 Print Assumptions stats_split_merge.
+
+(* ------------------------------------------------------------------ *)
+(* the shared queue: publish (force_push, evicting the oldest when full) / drain *)
+
+Lemma snap_sum_app : forall k a x y, snap_sum k a (x ++ y) = snap_sum k a x + snap_sum k a y.
+Proof.
+  intros k a x y. induction x as [|s r IH]; cbn [app snap_sum]; [lia|]. rewrite IH. lia.
+Qed.
+
+Lemma snap_sum_one : forall k a s, snap_sum k a [s] = ent_sum k a s.
+Proof. intros. cbn [snap_sum]. unfold ent_sum. lia. Qed.
+
+Definition q_total (k : kind) (a : addr) (st : squeue * cmap * list cmap) : N :=
+  let '(q, m, l) := st in
+  cs_get k (cm_lookup m a) + snap_sum k a (sq_items q) + snap_sum k a l.
+
+Lemma q_run_total : forall k a ops q m l,
+  q_total k a (q_run q m l ops) = q_total k a (q, m, l) + snap_sum k a (pushed_snaps ops).
+Proof.
+  intros k a. induction ops as [|o r IH]; intros q m l.
+  - cbn [q_run pushed_snaps flat_map snap_sum]. lia.
+  - destruct o as [x|].
+    + destruct x as [|e x'].
+      * cbn [q_run pushed_snaps flat_map app]. fold (pushed_snaps r). apply IH.
+      * cbn [q_run]. unfold sq_force_push.
+        change (pushed_snaps (QPush (e :: x') :: r)) with ((e :: x') :: pushed_snaps r).
+        destruct (length (sq_items q) <? sq_cap q)%nat.
+        -- rewrite IH. unfold q_total. cbn [sq_items]. rewrite snap_sum_app.
+           cbn [snap_sum]. lia.
+        -- destruct (sq_items q) as [|old rest] eqn:Ei.
+           ++ rewrite IH. unfold q_total. cbn [sq_items]. rewrite Ei. cbn [snap_sum]. lia.
+           ++ rewrite IH. unfold q_total. cbn [sq_items]. rewrite Ei, !snap_sum_app.
+              cbn [snap_sum]. lia.
+    + cbn [q_run]. change (pushed_snaps (QDrain :: r)) with (pushed_snaps r).
+      rewrite IH. unfold q_total. cbn [sq_items snap_sum].
+      destruct (rep_receive_gen (sq_items q) m a) as [Hk _]. rewrite Hk. lia.
+Qed.
+
+Lemma q_run_app : forall ops1 ops2 q m l,
+  q_run q m l (ops1 ++ ops2) = (let '(q1, m1, l1) := q_run q m l ops1 in q_run q1 m1 l1 ops2).
+Proof.
+  induction ops1 as [|o r IH]; intros ops2 q m l; [reflexivity|].
+  destruct o as [x|]; cbn [app q_run].
+  - destruct x; [apply IH|]. destruct (sq_force_push q (p :: x)) as [q' ev]. apply IH.
+  - apply IH.
+Qed.
+
+Lemma queue_conservation : goal_queue_conservation.
+Proof.
+  unfold goal_queue_conservation. intros cap ops a k.
+  pose proof (q_run_total k a (ops ++ [QDrain]) (mksq cap []) [] []) as Ht.
+  rewrite q_run_app in *.
+  destruct (q_run (mksq cap []) [] [] ops) as [[q1 m1] l1] eqn:E1.
+  cbn [q_run] in *. split; [reflexivity|].
+  unfold q_total in Ht. cbn [sq_items snap_sum] in Ht.
+  unfold pushed_snaps in Ht. rewrite flat_map_app in Ht. cbn [flat_map app] in Ht. rewrite app_nil_r in Ht.
+  fold (pushed_snaps ops) in Ht.
+  unfold cm_lookup in Ht at 2. cbn [cm_get] in Ht. rewrite cs_get_zero in Ht. lia.
+Qed.
+
+Lemma q_run_lossless : forall cap ops q m l,
+  sq_cap q = cap -> within_capacity cap (length (sq_items q)) ops = true ->
+  snd (q_run q m l ops) = l.
+Proof.
+  intros cap. induction ops as [|o r IH]; intros q m l Hc Hw; [reflexivity|].
+  destruct o as [x|].
+  - destruct x as [|e x'].
+    + cbn [q_run within_capacity] in *. apply IH; assumption.
+    + cbn [within_capacity] in Hw. apply andb_true_iff in Hw. destruct Hw as [Hle Hw].
+      cbn [q_run]. unfold sq_force_push. rewrite Hc.
+      assert ((length (sq_items q) <? cap)%nat = true) as -> by lia.
+      apply IH; cbn [sq_cap sq_items]; [reflexivity|]. rewrite app_length. cbn [length].
+      replace (length (sq_items q) + 1)%nat with (S (length (sq_items q))) by lia. exact Hw.
+  - cbn [q_run within_capacity] in *. apply IH; cbn [sq_cap sq_items length]; assumption.
+Qed.
+
+Lemma queue_lossless : goal_queue_lossless.
+Proof.
+  unfold goal_queue_lossless. intros cap ops Hw.
+  apply (q_run_lossless cap ops (mksq cap []) [] []); [reflexivity|exact Hw].
+Qed.
